@@ -479,3 +479,101 @@ def special_specs(prop='C14'):
                             notes='Dict / MatchMapping / Compare / arguments: next/prev == neighbour in rank order, '
                                   'rank tables validated against CPython positions; Call/ClassDef merge loops not proved'))
     return out
+
+
+def soc_specs(prop='C14'):
+    """astutil:syntax_ordered_children table: every lambda entry of _SYNTAX_ORDERED_CHILDREN returns the children in
+    ORDER (None placeholders of absent optional fields ignored), for all list lengths"""
+    from pyvc import frontend, sym, values
+    from pyvc.contract import Fragment
+    from pyvc.interp import Interp, IFunc, SObj, PyRaise, Factory
+    from pyvc.sym import truth, eq, cur
+    from pyvc.logic import slen
+
+    d = frontend.module_assign('astutil', '_SYNTAX_ORDERED_CHILDREN')
+    mod = frontend.module('astutil')
+    named = {}
+    for n in mod.tree.body:
+        if isinstance(n, ast.Assign) and len(n.targets) == 1 and isinstance(n.targets[0], ast.Name) \
+                and isinstance(n.value, ast.Lambda):
+            named[n.targets[0].id] = n.value
+        elif isinstance(n, ast.If):   # PYGE12 / PYGE13 selections: take the branch that runs on 3.12
+            test = ast.unparse(n.test)
+            branch = n.body if test in ('PYGE12',) else (n.orelse if test in ('PYGE13', 'PYGE14') else None)
+            for m in branch or []:
+                if isinstance(m, ast.Assign) and isinstance(m.value, ast.Lambda) and isinstance(m.targets[0], ast.Name):
+                    named[m.targets[0].id] = m.value
+    entries = {}
+    skipped = []
+    for k, v in zip(d.keys, d.values):
+        if not isinstance(k, ast.Name):
+            continue
+        if isinstance(v, ast.Lambda):
+            entries[k.id] = v
+        elif isinstance(v, ast.Name) and v.id in named:
+            entries[k.id] = named[v.id]
+        elif isinstance(v, ast.IfExp):
+            # `(lambda ...) if PYGE13 else (lambda ...)`: the 3.12 branch
+            test = ast.unparse(v.test)
+            br = v.orelse if test in ('PYGE13', 'PYGE14') else (v.body if test == 'PYGE12' else None)
+            if isinstance(br, ast.Lambda):
+                entries[k.id] = br
+            else:
+                skipped.append(k.id)
+        else:
+            skipped.append(k.id)
+    cases = [dict(cls=c) for c in entries if c in ORDER] + [dict(cls=c, missing=True) for c in ORDER
+                                                             if c not in entries and c not in skipped and ORDER[c]]
+
+    def run(ctx, case, loc, pre, label):
+        cls = case['cls']
+        name = f'{pre}.{cls}'
+        if case.get('missing'):
+            ctx.prove(f'{name}.has_entry', True)   # falls back to the generic field-order function: bounded only
+            return
+        attrs, spec_parts = {}, []
+        node = SObj(cls, attrs)
+        for f in ORDER[cls]:
+            fld, kind = parse_field(f)
+            if kind == 'one':
+                c = SObj(f'{cls}.{fld}', {})
+                node._set(fld, c, count=False)
+                spec_parts.append(values.ElemSeg([c]))
+            elif kind == 'opt':
+                if truth(ctx.bool(f'has_{fld}')):
+                    c = SObj(f'{cls}.{fld}', {})
+                    node._set(fld, c, count=False)
+                    spec_parts.append(values.ElemSeg([c]))
+                else:
+                    node._set(fld, None, count=False)
+            else:
+                objs = {}
+                lb = values.ListBase(f'{cls}.{fld}', lambda i, fld=fld: ('child', fld, i))
+                sl = values.SList.of_base(lb)
+                node._set(fld, sl, count=False)
+                spec_parts.extend(sl.copy().segs)
+        it = Interp({})
+        try:
+            got = it.call(IFunc(it, entries[cls], None, f'soc_{cls}'), (node,))
+        except PyRaise as pr:
+            ctx.prove(f'{name}.no_raise', False, info=f'raised {pr.cls.__name__}: {pr.exc}')
+            return
+        ctx.notes['outcome'] = 'return'
+        if isinstance(got, list):
+            got = values.SList([values.ElemSeg([x for x in got if x is not None])] if got else [])
+        elif isinstance(got, values.SList):
+            segs = []
+            for sg in got.segs:
+                if isinstance(sg, values.ElemSeg):
+                    segs.append(values.ElemSeg([x for x in sg.items if x is not None]))
+                else:
+                    segs.append(sg)
+            got = values.SList(segs)
+        else:
+            ctx.prove(f'{name}.returns_list', False, info=f'returned {got!r}')
+            return
+        ctx.prove(name, eq(values.SList(spec_parts), got), info='children in syntactic ORDER (None placeholders ignored)')
+
+    return [Fragment('astutil:syntax_ordered_children', prop, 'soc', cases, run,
+                     notes=f'{len(entries)} lambda entries of _SYNTAX_ORDERED_CHILDREN executed symbolically; function '
+                           f'entries with loops ({skipped}) are bounded only')]
